@@ -18,7 +18,7 @@ for n in sorted(R):
     rows.append(f"| {n} | {what} | {note['first_result']} | {note['added']} | exit {R[n]['exit']}: `{k}` |")
 det = sum(1 for v in R.values() if v["exit"] == 1)
 rounds = {"round 1 (Cnn-mK)": [k for k in R if not k.startswith("r")], "round 2 (r2-)": [k for k in R if k.startswith("r2-")], "round 3 (r3-)": [k for k in R if k.startswith("r3-")], "round 4 (r4-)": [k for k in R if k.startswith("r4-")],
-          "round 5 (r5-)": [k for k in R if k.startswith("r5-")]}
+          "round 5 (r5-)": [k for k in R if k.startswith("r5-")], "round 6 (r6-)": [k for k in R if k.startswith("r6-")]}
 per = "; ".join(f"{name}: {sum(1 for k in ks if R[k]['exit'] == 1)}/{len(ks)}" for name, ks in rounds.items())
 hdr = f"""# Seeded changes: what each check reports
 
